@@ -33,7 +33,7 @@ func vocab() []string {
 		vocabAll = append(vocabAll, vocabKw...)
 		vocabAll = append(vocabAll,
 			// identifiers
-			"a", "b", "Foo", "foo.bar", ".foo", "foo_bar1", "_", "x9", "é", "ident́", "日本", "́", "​", "google.protobuf.Any",
+			"a", "b", "Foo", "foo.bar", ".foo", "foo_bar1", "_", "x9", "é", "ident\u0301", "日本", "\u0301", "\u200b", "google.protobuf.Any",
 			// numbers
 			"0", "1", "42", "007", "08", "0x", "0xFF", "0Xg", "0b101", "0o17", "1e", "1e+", "1e10", "1.5", ".5", "5.", "1.2.3", "1..2", "1u", "1U", "1uu", "1f",
 			"1e1.5", "0x1p3", "1_000", "18446744073709551616", "99999999999999999999999999999", "1e999", "0.0000000000000000000000000001", "1e-999", "-1", "+1", "inf", "-inf", "nan",
@@ -43,7 +43,7 @@ func vocab() []string {
 			// comments
 			"//", "// c\n", "//\n", "/**/", "/* c */", "/*", "*/", "/* /* */ */", "/*/", "// c", "//*\n", "/*\n*/",
 			// whitespace
-			" ", "  ", "\t", "\n", "\r\n", "\r", "\f", "\v", "\u0085", " ", " ", "‎", " ", "﻿",
+			" ", "  ", "\t", "\n", "\r\n", "\r", "\f", "\v", "\u0085", "\u2028", "\u2029", "\u200e", "\u00a0", "\ufeff",
 			// brackets
 			"(", ")", "[", "]", "{", "}", "<", ">", "()", "[]", "{}", "<>", "{[}]", "([)]", "}{",
 			// junk
@@ -301,7 +301,7 @@ func mutate(rng *vlib.RNG, text string, k int, other string) string {
 				}
 			}
 		case 11: // NUL / invalid UTF-8 insertion
-			bad := []string{"\x00", "\xff", "\xc0\x80", "\xed\xa0\x80", "\xe2\x82", "\xf4\x90\x80\x80", "﻿", " "}
+			bad := []string{"\x00", "\xff", "\xc0\x80", "\xed\xa0\x80", "\xe2\x82", "\xf4\x90\x80\x80", "\ufeff", "\u2028"}
 			w := bad[rng.Intn(len(bad))]
 			b = append(b[:p], append([]byte(w), b[p:]...)...)
 		case 12: // open an unterminated string/comment
